@@ -245,10 +245,10 @@ def stable_expr(e, local_fns=None):
         if x[0] in ('phi', 'modby', 'cyc', 'uninit', 'partial', '?', '?rv', '?promoted'):
             return False
         if x[0] == 'call' and x[3] is not None:
-            if not (first and local_fns is not None and x[1] in local_fns):
+            # a crate-local function evaluated at one call site (not value-numbered, but one value per execution
+            # of that site; the rules using this never place such sites in loops)
+            if not (local_fns is not None and x[1] in local_fns):
                 return False
-        if x[0] not in ('ref', 'deref', 'un'):
-            first = False
     return True
 
 
